@@ -517,17 +517,47 @@ theorem convert_fields (p : ProofIn) (m : Parsed) (hc : convertTonProofMessage p
 
 /-! ### only the key controlling the address — under the ideal signature scheme and a collision-free hash
 
-The negative clauses of the property. `Sig.Ideal sign verify pub` (`TongoProofs/Lemmas/SigIdeal.lean`: `SigCorrect`,
-`SigUnforgeable` — whatever verifies was produced by `sign` under a secret key of that public key —, `SigBinds` — a
-signature determines signer and digest) and `CollisionFree H` on the byte strings involved are LOCAL hypotheses, the
-named idealisations of DESIGN §5.3. The accept-all verifier does not satisfy them (`Sig.accept_all_violates`), a toy
-scheme does (`Sig.toy_ideal`; instantiated at the end of this file). -/
+The negative clauses of the property. `Sig.Ideal sign verify pub` (`TongoProofs/Lemmas/SigIdeal.lean`: `SigCorrect` and
+`SigSound` — a genuine signature verifies, among HONESTLY GENERATED keys and 32-byte digests, only for its signer's key
+and its own digest) and `CollisionFree H` on the byte strings involved are LOCAL hypotheses, idealisations (DESIGN §5.3).
+Every rejection theorem requires the key CONTROLLING THE ACCOUNT — what the get-method returned or what was read from
+the state init — to be honestly generated (`Sig.Honest pub k`): under other 32-byte strings the real scheme accepts
+forgeries (small-order key `01 00 … 00`: oracle `go.ed.smallorder`; the all-zero key `ParseStateInit` used to return for
+the lockup code: oracle `go.tc.lockup`, `zero_key_returned_before_fix`), which is why the source of that key matters and
+why `ParseStateInit` must only return the key the owner stored. The accept-all verifier does not satisfy the hypotheses
+(`Sig.accept_all_violates`), a toy scheme does (`Sig.toy_ideal`; instantiated at the end of this file). -/
 
 /-- the fields of a signed message within the ranges of their Go types (`int32`, a 32-byte address, a domain shorter
 than 2³² bytes, `int64`) -/
 def ParsedWF (m : Parsed) : Prop :=
   m.address.length = 32 ∧ m.domain.length < 4294967296 ∧ (-2147483648 ≤ m.workchain ∧ m.workchain < 2147483648) ∧
     (-9223372036854775808 ≤ m.ts ∧ m.ts < 9223372036854775808)
+
+/-- Why the SOURCE of the key matters — the class of defect the idealisation would hide if it were stated for arbitrary
+keys: before the repair `ParseStateInit` returned the ALL-ZERO key, with no error, for a state init carrying the lockup
+wallet code (a known code hash without a data layout). That key is not honestly generated; Go's Ed25519 accepts a
+signature anybody can compute under it (oracle `go.tc.lockup`; the same for the small-order key `01 00 … 00`, oracles
+`go.ed.smallorder`, `go.tc.smallkey`), so `CheckProof` accepted a proof nobody's key controlled. The repaired
+`ParseStateInit` refuses. -/
+theorem zero_key_returned_before_fix (known : List (List UInt8 × Nat)) (code data : Cell) (hc : code.ty ≠ tyPruned)
+    (hd : data.ty ≠ tyPruned) (hdep : code.depthO ≤ maxDepth)
+    (hk : ∃ kh, known.find? (fun p => p.1 == code.hashO H) = some (kh, 7)) :
+    parseStateInitV0 H known (.roots [stateInitCell code data]) = .ok (List.replicate 32 0)
+    ∧ ∃ e, parseStateInit H known (.roots [stateInitCell code data]) = .err e := by
+  obtain ⟨kh, hk⟩ := hk
+  constructor
+  · unfold parseStateInitV0
+    simp only []
+    rw [decodeStateInit_stateInitCell code data hc hd]
+    simp [bind, Outcome.bind, Cell.hashO?, hdep, hk]
+  · unfold parseStateInit
+    simp only []
+    rw [decodeStateInit_stateInitCell code data hc hd]
+    simp only [bind, Outcome.bind, Cell.hashO?, hdep, ↓reduceIte, hk]
+    unfold keyFromData
+    by_cases hl : data.ty = tyLibrary
+    · exact ⟨"library cell decoding is not configured properly", by simp [hl]⟩
+    · exact ⟨"unsupported wallet version", by simp [hl]⟩
 
 /-- An accepted proof passed every check: the payload and domain callbacks said yes, the proof is within its lifetime,
 the presented fields decode to `m`, the account id parses, the key `pk` is the one obtained for that account (get-method,
@@ -570,22 +600,24 @@ theorem accepted_was_verified (env : Env) (p : ProofIn) (pk : List UInt8) (h : c
           subst h
           exact ⟨m, wc, acc, sig, hp, hd, hc, ho, ha, hsig, hk, hv⟩
 
-/-- Hence (ideal unforgeability) whatever `CheckProof` accepts was signed by a secret key of the returned public key,
-over exactly the digest of the PRESENTED fields. -/
+/-- Hence (`SigUnforgeable`, the strongest idealisation, under an HONESTLY GENERATED key) whatever `CheckProof` accepts
+with the key `pub sk0` was signed by a secret key of that key, over exactly the digest of the PRESENTED fields. (False of
+the real scheme when the returned key is not honestly generated.) -/
 theorem accepted_was_signed (sign : List UInt8 → List UInt8 → List UInt8) (pub : List UInt8 → List UInt8)
-    (hu : Sig.SigUnforgeable sign verify pub) (env : Env) (p : ProofIn) (pk : List UInt8)
-    (h : checkProof H verify env p = .ok pk) :
-    ∃ m sk, convertTonProofMessage p = .ok m ∧ pk = pub sk ∧ p.signature = some (sign sk (createMessage H m)) := by
-  obtain ⟨m, _, _, sig, _, _, hc, _, _, hsig, _, hv⟩ := accepted_was_verified H verify env p pk h
-  obtain ⟨sk, hpk, hs⟩ := hu pk _ sig hv
+    (hu : Sig.SigUnforgeable sign verify pub) (env : Env) (p : ProofIn) (sk0 : List UInt8)
+    (h : checkProof H verify env p = .ok (pub sk0)) :
+    ∃ m sk, convertTonProofMessage p = .ok m ∧ pub sk = pub sk0 ∧ p.signature = some (sign sk (createMessage H m)) := by
+  obtain ⟨m, _, _, sig, _, _, hc, _, _, hsig, _, hv⟩ := accepted_was_verified H verify env p _ h
+  obtain ⟨sk, hpk, hs⟩ := hu sk0 _ sig hv
   exact ⟨m, sk, hc, hpk, by rw [hsig, hs]⟩
 
 /-- The core of all the rejections: a proof whose signature was made with `sk0` over the fields `m0` is accepted only
 with `pub sk0` as the key controlling the account AND only if the presented fields ARE `m0` — workchain, address,
-domain, timestamp and payload. (Ideal signatures; `H` collision-free on the inner and outer byte strings of the two
+domain, timestamp and payload — PROVIDED the key controlling the account is honestly generated. (Ideal signatures; `H` collision-free on the inner and outer byte strings of the two
 messages; presented address of 32 bytes — `convertTonProofMessage` does not check that, see `assumptions`.) -/
 theorem accepted_fields_are_signed (hlen : ∀ x, (H x).length = 32) (sign : List UInt8 → List UInt8 → List UInt8)
     (pub : List UInt8 → List UInt8) (I : Sig.Ideal sign verify pub) (env : Env) (p : ProofIn) (pk : List UInt8)
+    (hhon : Sig.Honest pub pk)
     (sk0 : List UInt8) (m0 : Parsed) (hsig : p.signature = some (sign sk0 (createMessage H m0))) (hw0 : ParsedWF m0)
     (m : Parsed) (hc : convertTonProofMessage p = .ok m) (hw : ParsedWF m)
     (cfOuter : CollisionFree H [[0xff, 0xff] ++ tonConnectPrefix ++ H (messageBytes m), [0xff, 0xff] ++ tonConnectPrefix ++ H (messageBytes m0)])
@@ -599,7 +631,7 @@ theorem accepted_fields_are_signed (hlen : ∀ x, (H x).length = 32) (sign : Lis
   simp only [Option.some.injEq] at hsig'
   subst hsig'
   have hd : ∀ x : Parsed, (createMessage H x).length = 32 := fun x => hlen _
-  obtain ⟨hpk, hdig⟩ := I.verify_sound sk0 pk _ _ (hd m0) (hd m) hv
+  obtain ⟨hpk, hdig⟩ := I.verify_sound sk0 pk _ _ hhon (hd m0) (hd m) hv
   exact ⟨hpk, message_binds_digest H hlen m m0 hw.1 hw0.1 hw.2.1 hw0.2.1 hw.2.2.1 hw0.2.2.1 hw.2.2.2 hw0.2.2.2 cfOuter cfInner hdig⟩
 
 /-- the answer of `CheckProof` is never a panic, so "not accepted" is "rejected with an error" -/
@@ -611,13 +643,13 @@ theorem not_accepted_is_error (env : Env) (p : ProofIn) (h : ∀ pk, checkProof 
   | panic x => exact absurd hr (check_total H verify env p x)
 
 /-- **Signed by another key.** The key controlling the account (what the get-method returns, or the key in the state
-init that hashes to the address) is `k`; the proof's signature was made with a secret key `sk0` whose public key is not
-`k`: `CheckProof` rejects — whatever was signed, whatever the other fields. -/
+init that hashes to the address) is an honestly generated key `k`; the proof's signature was made with a secret key
+`sk0` whose public key is not `k`: `CheckProof` rejects — whatever was signed, whatever the other fields. -/
 theorem reject_foreign_signer (hlen : ∀ x, (H x).length = 32) (sign : List UInt8 → List UInt8 → List UInt8)
     (pub : List UInt8 → List UInt8) (I : Sig.Ideal sign verify pub) (env : Env) (p : ProofIn)
     (sk0 : List UInt8) (d0 : List UInt8) (hd0 : d0.length = 32) (hsig : p.signature = some (sign sk0 d0))
     (hkey : ∀ wc acc k, parseAccountID p.address = .ok (wc, acc) →
-      obtainKey (parseStateInit H env.known) H env acc p = .ok k → k ≠ pub sk0) :
+      obtainKey (parseStateInit H env.known) H env acc p = .ok k → Sig.Honest pub k ∧ k ≠ pub sk0) :
     ∃ e, checkProof H verify env p = .err e := by
   apply not_accepted_is_error
   intro pk h
@@ -625,12 +657,15 @@ theorem reject_foreign_signer (hlen : ∀ x, (H x).length = 32) (sign : List UIn
   rw [hsig] at hsig'
   simp only [Option.some.injEq] at hsig'
   subst hsig'
-  exact hkey wc acc pk ha hk (I.verify_sound sk0 pk _ _ hd0 (hlen _) hv).1
+  exact (hkey wc acc pk ha hk).2 (I.verify_sound sk0 pk _ _ (hkey wc acc pk ha hk).1 hd0 (hlen _) hv).1
 
 /-- **Substituted field**, general form: the signature was made over `m0`; the proof presents fields that decode to
-something else: rejected. -/
+something else: rejected — provided the key controlling the account (whatever the get-method or the state init yields) is
+honestly generated. -/
 theorem reject_substituted_field (hlen : ∀ x, (H x).length = 32) (sign : List UInt8 → List UInt8 → List UInt8)
     (pub : List UInt8 → List UInt8) (I : Sig.Ideal sign verify pub) (env : Env) (p : ProofIn)
+    (hkh : ∀ wc acc k, parseAccountID p.address = .ok (wc, acc) →
+      obtainKey (parseStateInit H env.known) H env acc p = .ok k → Sig.Honest pub k)
     (sk0 : List UInt8) (m0 : Parsed) (hsig : p.signature = some (sign sk0 (createMessage H m0))) (hw0 : ParsedWF m0)
     (m : Parsed) (hc : convertTonProofMessage p = .ok m) (hw : ParsedWF m)
     (cfOuter : CollisionFree H [[0xff, 0xff] ++ tonConnectPrefix ++ H (messageBytes m), [0xff, 0xff] ++ tonConnectPrefix ++ H (messageBytes m0)])
@@ -638,50 +673,59 @@ theorem reject_substituted_field (hlen : ∀ x, (H x).length = 32) (sign : List 
     (hne : m ≠ m0) : ∃ e, checkProof H verify env p = .err e := by
   apply not_accepted_is_error
   intro pk h
-  exact hne (accepted_fields_are_signed H verify hlen sign pub I env p pk sk0 m0 hsig hw0 m hc hw cfOuter cfInner h).2
+  obtain ⟨_, wc, acc, _, _, _, _, _, ha, _, hk, _⟩ := accepted_was_verified H verify env p pk h
+  exact hne (accepted_fields_are_signed H verify hlen sign pub I env p pk (hkh wc acc pk ha hk) sk0 m0 hsig hw0 m hc hw cfOuter cfInner h).2
 
 /-- **Address differs from what was signed** (workchain or account hash): rejected. -/
 theorem reject_substituted_address (hlen : ∀ x, (H x).length = 32) (sign : List UInt8 → List UInt8 → List UInt8)
     (pub : List UInt8 → List UInt8) (I : Sig.Ideal sign verify pub) (env : Env) (p : ProofIn)
+    (hkh : ∀ wc acc k, parseAccountID p.address = .ok (wc, acc) →
+      obtainKey (parseStateInit H env.known) H env acc p = .ok k → Sig.Honest pub k)
     (sk0 : List UInt8) (m0 : Parsed) (hsig : p.signature = some (sign sk0 (createMessage H m0))) (hw0 : ParsedWF m0)
     (m : Parsed) (hc : convertTonProofMessage p = .ok m) (hw : ParsedWF m)
     (cfOuter : CollisionFree H [[0xff, 0xff] ++ tonConnectPrefix ++ H (messageBytes m), [0xff, 0xff] ++ tonConnectPrefix ++ H (messageBytes m0)])
     (cfInner : CollisionFree H [messageBytes m, messageBytes m0])
     (hne : m.address ≠ m0.address ∨ m.workchain ≠ m0.workchain) : ∃ e, checkProof H verify env p = .err e :=
-  reject_substituted_field H verify hlen sign pub I env p sk0 m0 hsig hw0 m hc hw cfOuter cfInner
+  reject_substituted_field H verify hlen sign pub I env p hkh sk0 m0 hsig hw0 m hc hw cfOuter cfInner
     (fun h => by rcases hne with h1 | h1 <;> exact h1 (by rw [h]))
 
 /-- **Domain differs from what was signed**: rejected (independently of what the domain callback says). -/
 theorem reject_substituted_domain (hlen : ∀ x, (H x).length = 32) (sign : List UInt8 → List UInt8 → List UInt8)
     (pub : List UInt8 → List UInt8) (I : Sig.Ideal sign verify pub) (env : Env) (p : ProofIn)
+    (hkh : ∀ wc acc k, parseAccountID p.address = .ok (wc, acc) →
+      obtainKey (parseStateInit H env.known) H env acc p = .ok k → Sig.Honest pub k)
     (sk0 : List UInt8) (m0 : Parsed) (hsig : p.signature = some (sign sk0 (createMessage H m0))) (hw0 : ParsedWF m0)
     (m : Parsed) (hc : convertTonProofMessage p = .ok m) (hw : ParsedWF m)
     (cfOuter : CollisionFree H [[0xff, 0xff] ++ tonConnectPrefix ++ H (messageBytes m), [0xff, 0xff] ++ tonConnectPrefix ++ H (messageBytes m0)])
     (cfInner : CollisionFree H [messageBytes m, messageBytes m0])
     (hne : p.domain ≠ m0.domain) : ∃ e, checkProof H verify env p = .err e :=
-  reject_substituted_field H verify hlen sign pub I env p sk0 m0 hsig hw0 m hc hw cfOuter cfInner
+  reject_substituted_field H verify hlen sign pub I env p hkh sk0 m0 hsig hw0 m hc hw cfOuter cfInner
     (fun h => hne (by rw [← h, convert_fields p m hc |>.1]))
 
 /-- **Timestamp differs from what was signed**: rejected (a replayed signature cannot be given a fresh timestamp). -/
 theorem reject_substituted_timestamp (hlen : ∀ x, (H x).length = 32) (sign : List UInt8 → List UInt8 → List UInt8)
     (pub : List UInt8 → List UInt8) (I : Sig.Ideal sign verify pub) (env : Env) (p : ProofIn)
+    (hkh : ∀ wc acc k, parseAccountID p.address = .ok (wc, acc) →
+      obtainKey (parseStateInit H env.known) H env acc p = .ok k → Sig.Honest pub k)
     (sk0 : List UInt8) (m0 : Parsed) (hsig : p.signature = some (sign sk0 (createMessage H m0))) (hw0 : ParsedWF m0)
     (m : Parsed) (hc : convertTonProofMessage p = .ok m) (hw : ParsedWF m)
     (cfOuter : CollisionFree H [[0xff, 0xff] ++ tonConnectPrefix ++ H (messageBytes m), [0xff, 0xff] ++ tonConnectPrefix ++ H (messageBytes m0)])
     (cfInner : CollisionFree H [messageBytes m, messageBytes m0])
     (hne : p.ts ≠ m0.ts) : ∃ e, checkProof H verify env p = .err e :=
-  reject_substituted_field H verify hlen sign pub I env p sk0 m0 hsig hw0 m hc hw cfOuter cfInner
+  reject_substituted_field H verify hlen sign pub I env p hkh sk0 m0 hsig hw0 m hc hw cfOuter cfInner
     (fun h => hne (by rw [← h, convert_fields p m hc |>.2.1]))
 
 /-- **Payload differs from what was signed**: rejected (a signature over one server nonce is useless with another). -/
 theorem reject_substituted_payload (hlen : ∀ x, (H x).length = 32) (sign : List UInt8 → List UInt8 → List UInt8)
     (pub : List UInt8 → List UInt8) (I : Sig.Ideal sign verify pub) (env : Env) (p : ProofIn)
+    (hkh : ∀ wc acc k, parseAccountID p.address = .ok (wc, acc) →
+      obtainKey (parseStateInit H env.known) H env acc p = .ok k → Sig.Honest pub k)
     (sk0 : List UInt8) (m0 : Parsed) (hsig : p.signature = some (sign sk0 (createMessage H m0))) (hw0 : ParsedWF m0)
     (m : Parsed) (hc : convertTonProofMessage p = .ok m) (hw : ParsedWF m)
     (cfOuter : CollisionFree H [[0xff, 0xff] ++ tonConnectPrefix ++ H (messageBytes m), [0xff, 0xff] ++ tonConnectPrefix ++ H (messageBytes m0)])
     (cfInner : CollisionFree H [messageBytes m, messageBytes m0])
     (hne : p.payload ≠ m0.payload) : ∃ e, checkProof H verify env p = .err e :=
-  reject_substituted_field H verify hlen sign pub I env p sk0 m0 hsig hw0 m hc hw cfOuter cfInner
+  reject_substituted_field H verify hlen sign pub I env p hkh sk0 m0 hsig hw0 m hc hw cfOuter cfInner
     (fun h => hne (by rw [← h, convert_fields p m hc |>.2.2]))
 
 /-- The state init that hashes to an address holds the OWNER's key: if the account address is the hash of the wallet
@@ -776,15 +820,15 @@ theorem stateinit_for_address_has_owner_key (hlen : ∀ x, (H x).length = 32) (k
       | false => simp [hcmp] at hk
       | true => simp only [hcmp, Outcome.ok.injEq] at hk; exact hk.symm
 
-/-- **State init of another key.** The account is the wallet of `pkV` (its address is the hash of that wallet's state
-init); the get-method gives no key; the attacker supplies ANY state init (a tree of ordinary cells) and a signature made
+/-- **State init of another key.** The account is the wallet of the honestly generated key `pkV` (its address is the hash
+of that wallet's state init); the get-method gives no key; the attacker supplies ANY state init (a tree of ordinary cells) and a signature made
 with a key `skA` whose public key is not `pkV`: `CheckProof` rejects. A state init holding the attacker's key does not
 hash to the victim's address; one that does hash to it holds the victim's key, under which the attacker's signature
 does not verify. -/
 theorem reject_stateinit_of_other_key (hlen : ∀ x, (H x).length = 32) (sign : List UInt8 → List UInt8 → List UInt8)
     (pub : List UInt8 → List UInt8) (I : Sig.Ideal sign verify pub) (env : Env) (p : ProofIn)
-    (v : Version) (hv : v ≠ .highloadV2R2) (code : Cell) (pkV : List UInt8) (hpk : pkV.length = 32) (o : Opts) (a : Address)
-    (haddr : address H code v pkV o = .ok a)
+    (v : Version) (hv : v ≠ .highloadV2R2) (code : Cell) (pkV : List UInt8) (hpk : pkV.length = 32) (hhon : Sig.Honest pub pkV)
+    (o : Opts) (a : Address) (haddr : address H code v pkV o = .ok a)
     (hknown : ∃ kh, env.known.find? (fun p => p.1 == code.hashO H) = some (kh, v.goIndex))
     (hget : ∀ k, getWalletPubKey env.getter ≠ .ok k)
     (hacc : ∀ wc acc, parseAccountID p.address = .ok (wc, acc) → acc = a.hash)
@@ -809,7 +853,7 @@ theorem reject_stateinit_of_other_key (hlen : ∀ x, (H x).length = 32) (sign : 
   | err e =>
     simp only [hg] at hk
     have := stateinit_for_address_has_owner_key H hlen env.known v hv code pkV hpk o a.hash hh hknown p c hsi hw cf k hk
-    rw [this]; exact fun h => hne h.symm
+    rw [this]; exact ⟨hhon, fun h => hne h.symm⟩
 
 /-! ### the honest proof is accepted -/
 
@@ -878,16 +922,21 @@ example : ({ workchain := 0, address := List.replicate 32 7, domain := [100], ts
 
 /-- non-vacuity of the signature premises (`accept_honest`: correctness; the negative clauses: `Sig.Ideal`): the toy
 scheme of `Lemmas/SigIdeal.lean` — public key = secret key cut / padded to 32 bytes, signature = public key ‖ message cut /
-padded to 32 bytes, verifier recomputes it — is correct, unforgeable and binding, with 64-byte signatures and 32-byte keys -/
-example : Sig.Ideal Sig.toySign Sig.toyVerify Sig.toyPub ∧ (∀ sk m, (Sig.toySign sk m).length = 64) ∧ (∀ sk, (Sig.toyPub sk).length = 32) :=
-  Sig.toy_ideal
+padded to 32 bytes, verifier recomputes it — is correct, sound and unforgeable under honestly generated keys, with 64-byte
+signatures and 32-byte keys; and it accepts EVERYTHING under the key `01 00 … 00`, which is not honestly generated: the
+hypotheses are compatible with the behaviour of the real scheme under small-order keys -/
+example : Sig.Ideal Sig.toySign Sig.toyVerify Sig.toyPub ∧ Sig.SigUnforgeable Sig.toySign Sig.toyVerify Sig.toyPub ∧
+    (∀ sk m, (Sig.toySign sk m).length = 64) ∧ (∀ sk, (Sig.toyPub sk).length = 32) ∧
+    (∀ m s, Sig.toyVerify Sig.lowKey m s = true) ∧ ¬ Sig.Honest Sig.toyPub Sig.lowKey :=
+  ⟨Sig.toy_ideal.1, Sig.toy_ideal.2.1, Sig.toy_ideal.2.2.1, Sig.toy_ideal.2.2.2, Sig.toy_dishonest_key_accepts_all.1,
+    Sig.toy_dishonest_key_accepts_all.2.1⟩
 
 /-- the accept-all verifier satisfies the correctness premise of `accept_honest` but is EXCLUDED by the hypotheses of the
 negative clauses -/
-example (sign : List UInt8 → List UInt8 → List UInt8) (pub : List UInt8 → List UInt8) (hsl : ∀ sk m, (sign sk m).length = 64) :
+example (sign : List UInt8 → List UInt8 → List UInt8) (pub : List UInt8 → List UInt8) :
     (∀ sk m, (fun _ _ _ => true : List UInt8 → List UInt8 → List UInt8 → Bool) (pub sk) m (sign sk m) = true) ∧
       ¬ Sig.Ideal sign (fun _ _ _ => true) pub :=
-  ⟨fun _ _ => rfl, fun I => Sig.accept_all_violates sign pub hsl I.unforgeable⟩
+  ⟨fun _ _ => rfl, fun I => Sig.accept_all_violates sign pub I.sound⟩
 
 /-- non-vacuity of the collision-freedom and range premises of the substituted-field clauses: two messages that differ
 in the workchain only, within the Go ranges, and a 32-byte "hash" (`pad32`) that is collision-free on their inner and
@@ -908,6 +957,32 @@ example :
     · exact absurd h.symm hne
     · rfl
   refine ⟨by unfold ParsedWF; decide, by unfold ParsedWF; decide, by decide, Sig.pad32_length, cf2 _ _ (by decide), cf2 _ _ (by decide)⟩
+
+/-- a second toy 32-byte "hash" — the last 32 bytes, reversed, zero-padded — for the instances where the two messages agree
+on their first 32 bytes (`pad32` is NOT collision-free there) -/
+def nvTail (x : List UInt8) : List UInt8 := (x.reverse ++ List.replicate 32 0).take 32
+
+/-- non-vacuity of the premises of `reject_substituted_domain` / `_timestamp` / `_payload`: for messages that differ only
+in the domain, only in the timestamp, or only in the payload, `nvTail` has 32-byte outputs and is collision-free on the
+inner and on the outer byte strings -/
+example :
+    let m0 : Parsed := { workchain := 0, address := List.replicate 32 7, domain := [100], ts := 1700000000, payload := [1, 2] }
+    ∀ m ∈ [{ m0 with domain := [101] }, { m0 with ts := 1700000001 }, { m0 with payload := [1, 3] }],
+      ParsedWF m ∧ m ≠ m0 ∧
+      CollisionFree nvTail [messageBytes m, messageBytes m0] ∧
+      CollisionFree nvTail [[0xff, 0xff] ++ tonConnectPrefix ++ nvTail (messageBytes m), [0xff, 0xff] ++ tonConnectPrefix ++ nvTail (messageBytes m0)] := by
+  intro m0 m hm
+  have cf2 : ∀ a b : List UInt8, nvTail a ≠ nvTail b → CollisionFree nvTail [a, b] := by
+    intro a b hne x hx y hy h
+    simp only [List.mem_cons, List.not_mem_nil, or_false] at hx hy
+    rcases hx with rfl | rfl <;> rcases hy with rfl | rfl
+    · rfl
+    · exact absurd h hne
+    · exact absurd h.symm hne
+    · rfl
+  simp only [List.mem_cons, List.not_mem_nil, or_false] at hm
+  rcases hm with rfl | rfl | rfl <;>
+    exact ⟨by unfold ParsedWF; decide, by decide, cf2 _ _ (by decide), cf2 _ _ (by decide)⟩
 
 /-- non-vacuity of the get-method premise: an integer with 32 significant bytes is returned as a 32-byte key -/
 example : ∃ k, getWalletPubKey (.int (256 ^ 31)) = .ok k ∧ k.length = 32 := by
